@@ -122,6 +122,28 @@ let run ~seed ~tier oc =
       | _ -> "pre " ^ v ^ " post" in
     emit oc (Ob [ "stream", JS "verbatim"; "src", JS (hex src); "lex", JS "n/a"; "body_marker", JS (hex "VB1") ])
   done;
+  (* literal text that looks like tags (escaped openers with everything a tag has behind them, lone braces) inside the
+     constructs a text can stand in -- a called macro above all: it is text there too; nothing in it is evaluated, so
+     the output is the same for every context and holds no context or argument data *)
+  let nl = if tier = "thorough" then 3000 else 300 in
+  for _ = 1 to nl do
+    let parts = 1 + rint r 4 in
+    let buf = Buffer.create 64 in
+    for _ = 1 to parts do
+      Buffer.add_string buf (pick r [| "\\{{ a }}"; "\\{{ b|upper }}"; "\\{% if a %}"; "\\{# c #}"; "\\{{- a -}}"; " lit "; "<p>"; "{ a }"; "{ {a} }"; "} }"; "% }"; "\\{{ a"; "x\\{{ items|first }}y";
+                                       "\\{{ a ~ b }} and \\{{ d }}" |])
+    done;
+    let v = "EO1" ^ Buffer.contents buf ^ "EO2" in
+    let src = match rint r 8 with
+      | 0 -> "{% if 1 %}" ^ v ^ "{% endif %}"
+      | 1 -> "{% for i in [1, 2] %}" ^ v ^ "{% endfor %}"
+      | 2 -> "{% block blk %}" ^ v ^ "{% endblock %}"
+      | 3 | 4 -> "{% macro m(a, b) %}" ^ v ^ "{% endmacro %}{{ m('ARGVAL1', 'ARGVAL2') }}"
+      | 5 -> "{% macro m(a) %}{% if a %}" ^ v ^ "{% endif %}{% endmacro %}{{ _self.m('ARGVAL1') }}"
+      | 6 -> "{% set a = 'CTXVAL9' %}" ^ v
+      | _ -> "pre " ^ v ^ " post" in
+    emit oc (Ob [ "stream", JS "literal-in-construct"; "src", JS (hex src); "lex", JS "n/a"; "body_marker", JS (hex "EO1") ])
+  done;
   (* the listed known finding: a backslash directly before an opener *)
   List.iter (fun (src, out) -> emit_src oc "known:backslash-before-opener" src [ "out", JS (hex out); "demanded", JS (hex src) ])
     [ "a\\{{ x }}b", "a{{ x }}b"; "\\{% if %}", "{% if %}"; "x\\{# c #}y", "x{# c #}y"; "p \\{{- q", "p {{- q" ]
